@@ -93,7 +93,7 @@ def corrupt(rng, data, kind=None, packets=False):
     return bytes(b), kind, pos
 
 
-def make_cases(rng, src_path, n, outdir, tag):
+def make_cases(rng, src_path, n, outdir, tag, structural=False):
     """corrupted variants of one replay file: (path, region, kind, intact_container)"""
     from replay_unpack.replay_reader import ReplayReader
     raw = open(src_path, 'rb').read()
@@ -129,26 +129,39 @@ def make_cases(rng, src_path, n, outdir, tag):
         if o + 12 <= len(stream):
             by_type.setdefault(struct.unpack_from('<I', stream, o + 4)[0], []).append(k)
     j = 0
-    for ty, ks in sorted(by_type.items()):
-        if len(cases) - n >= (30 if n < 100 else 60):
-            break
-        k = ks[min(len(ks) - 1, 1 + rng.randrange(3))]
-        o, size = offs[k]
-        variants = []
-        for a in (0, 4, 8):
-            if size >= a + 8:
-                b = bytearray(stream)
-                b[o + 12 + a:o + 12 + a + 4], b[o + 12 + a + 4:o + 12 + a + 8] = b[o + 12 + a + 4:o + 12 + a + 8], b[o + 12 + a:o + 12 + a + 4]
-                variants.append(('pswap', bytes(b)))
-        pkt = stream[o:o + 12 + size]
-        variants.append(('pdup', stream[:o] + pkt + pkt + stream[o + 12 + size:]))
-        for kind, st in variants[:3 if len(by_type) > 8 else 4]:
-            data = container.write_container(ext, raw[12:12 + struct.unpack('<i', raw[8:12])[0]], [], st, level=1)
-            p = os.path.join(outdir, '%s-t%d.%s' % (tag, j, ext))
-            j += 1
-            with open(p, 'wb') as f:
-                f.write(data)
-            cases.append((p, 'stream', kind, True))
+
+    def add(kind, st):
+        nonlocal j
+        data = container.write_container(ext, raw[12:12 + struct.unpack('<i', raw[8:12])[0]], [], st, level=1)
+        p = os.path.join(outdir, '%s-t%d.%s' % (tag, j, ext))
+        j += 1
+        with open(p, 'wb') as f:
+            f.write(data)
+        cases.append((p, 'stream', kind, True))
+
+    if structural:
+        for ty, ks in sorted(by_type.items()):
+            # an early, a middle and the last occurrence of the type: the first two fields transposed in each; the other neighbouring
+            # pairs and a duplicate for the middle one
+            for which, k in enumerate(sorted({ks[min(len(ks) - 1, 1)], ks[len(ks) // 2], ks[-1]})):
+                o, size = offs[k]
+                for a in ((0,) if which != 1 else (0, 4, 8)):
+                    if size >= a + 8:
+                        b = bytearray(stream)
+                        b[o + 12 + a:o + 12 + a + 4], b[o + 12 + a + 4:o + 12 + a + 8] = b[o + 12 + a + 4:o + 12 + a + 8], b[o + 12 + a:o + 12 + a + 4]
+                        add('pswap', bytes(b))
+                if which == 1:
+                    pkt = stream[o:o + 12 + size]
+                    add('pdup', stream[:o] + pkt + pkt + stream[o + 12 + size:])
+        # every directed value of the size field (signed / unsigned readings, remaining +-1, back-pointers) for an early, a middle and a
+        # late packet
+        if len(offs) >= 4:
+            for k in sorted({1, len(offs) // 2, len(offs) - 2}):
+                o, size = offs[k]
+                for v in sorted(set(directed_field_values(rng, offs, k, len(stream) - o - 12))):
+                    b = bytearray(stream)
+                    b[o:o + 4] = struct.pack('<I', v)
+                    add('psize', bytes(b))
     return cases
 
 
@@ -175,6 +188,7 @@ def part_campaign(chk, n_per_file, n_files):
     os.makedirs(outdir, exist_ok=True)
     try:
         sources = list(pick_recordings(chk, 3, small=True))
+        n_recordings = len(sources)
         versions = [v for v in battlecheck.version_dirs() if v != ('wowp', '0_3_3')]
         for g, v in rng.sample(versions, n_files):
             b, exp, err = battlecheck.make_battle(g, v, chk.seed, rich=True)
@@ -185,7 +199,8 @@ def part_campaign(chk, n_per_file, n_files):
                 sources.append(p)
         cases = []
         for si, src in enumerate(sources):
-            cases += make_cases(rng, src, n_per_file, outdir, 's%d' % si)
+            # the enumerated, length-preserving damage for the first recording and the first synthetic battle only (it is per packet type)
+            cases += make_cases(rng, src, n_per_file, outdir, 's%d' % si, structural=(si == 0 or si == n_recordings))
         meta = {c[0]: c for c in cases}
         jobs = []
         files = [c[0] for c in cases]
